@@ -454,8 +454,11 @@ where
     F::Float: Copy + Debug,
 {
     let ms_ref: f64 = last.iter().map(|x| x * x).sum::<f64>() / n as f64;
-    let ms_impl = F::fl(rms.clone().next_squared(f))[0];
-    let out = F::fl(rms.next(f))[0];
+    // a panic in the detector (an overflow check, a debug assertion) on a finite input is a violation
+    let (ms_impl, out) = match catch(|| (F::fl(rms.clone().next_squared(f))[0], F::fl(rms.next(f))[0])) {
+        Ok(x) => x,
+        Err(p) => return Some(("rms.panic".into(), format!("{} N={n} step {t}: panicked: {p}", F::NAME))),
+    };
     // two rounded additions per step on a sum bounded by N; the clamp only moves the sum towards the truth
     let bound = 4.0 * (t + n) as f64 * F::EPS * (n as f64) / n as f64 + 1e-300;
     if !(ms_impl >= 0.0) || (ms_impl - ms_ref).abs() > bound {
@@ -563,8 +566,10 @@ where
             }
         }
         let ms_ref = sum_ref / n as f64;
-        let ms_impl = F::fl(rms.clone().next_squared(f))[0];
-        let out = F::fl(rms.next(f))[0];
+        let (ms_impl, out) = match catch(|| (F::fl(rms.clone().next_squared(f))[0], F::fl(rms.next(f))[0])) {
+            Ok(x) => x,
+            Err(p) => return Some(("rms.panic".into(), format!("{} N={n} long run step {t}: panicked: {p}", F::NAME))),
+        };
         let bound = 4.0 * (t + n) as f64 * F::EPS + 1e-12;
         if !(ms_impl >= 0.0) || (ms_impl - ms_ref).abs() > bound || !sqrt_ok(out, ms_impl, F::EPS) {
             return Some(("rms.drift".into(), format!("{} N={n} long run step {t}: next()={out:e} mean square {ms_impl:e} vs recomputed {ms_ref:e} (bound {bound:e})", F::NAME)));
@@ -791,6 +796,7 @@ fn dispatch_replay(v: &Value) -> Option<String> {
 }
 
 fn main() {
+    let _final_guard = common::FinalGuard::new();
     let ctx: &'static Ctx = Ctx::leak("C11", if NOSTD { "no_std" } else { "std" });
     // the build must be what the part name says
     let approx = 2.0f32.sample_sqrt() != 2.0f32.sqrt() || 2.0f64.sample_sqrt() != 2.0f64.sqrt();
